@@ -57,6 +57,7 @@ const (
 	GPackBucket       = "g:several_undelegations_of_one_delegator_in_one_block"
 	GDrainAsset       = "g:every_position_of_an_asset_exits"
 	GWeightChangeOut  = "g:weight_change_while_a_staked_validator_is_out_of_the_set"
+	GRedelIntoUnclaim = "g:redelegate_into_a_position_with_indexed_but_unclaimed_rewards"
 )
 
 const (
@@ -726,6 +727,53 @@ func (g *Gen) Step() {
 		} else {
 			p := new(big.Int).Quo(x.Post().Vals[a].Tokens.BigInt(), big.NewInt(1_000_000)).Int64()
 			x.Apply(Op{K: KSlash, V: a, Frac: g.frac(), Power: p, Age: int64(g.intn("age", 2))})
+		}
+	case GRedelIntoUnclaim:
+		// delegator D holds the same asset on validators a and b; rewards arrive; ANOTHER position on
+		// b settles b's rewards into the index (D's position on b stays unclaimed); then D moves
+		// stake from a onto the existing position on b (or tops it up by delegating) and claims
+		ds := g.assetDenoms()
+		if len(ds) == 0 {
+			return
+		}
+		dn := ds[g.intn("ru-denom", len(ds))]
+		D := g.del()
+		a := g.intn("ru-a", nv)
+		b := (a + 1 + g.intn("ru-b", nv-1)) % nv
+		other := (D + 1 + g.intn("ru-other", NumDels-1)) % NumDels
+		cur := x.Post()
+		if _, ok := cur.FindDel(D, a, dn); !ok {
+			x.Apply(Op{K: KDelegate, D: D, V: a, Denom: dn, Amt: g.freshAmount("amt")})
+		}
+		if _, ok := cur.FindDel(D, b, dn); !ok {
+			x.Apply(Op{K: KDelegate, D: D, V: b, Denom: dn, Amt: g.freshAmount("amt")})
+		}
+		if _, ok := cur.FindDel(other, b, dn); !ok {
+			x.Apply(Op{K: KDelegate, D: other, V: b, Denom: dn, Amt: g.freshAmount("amt")})
+		}
+		x.Apply(Op{K: KBlock, Dt: g.dt(), Fees: g.fees()})
+		for i, n := 0, 1+g.intn("ru-blocks", 2); i < n; i++ {
+			x.Apply(Op{K: KBlock, Dt: sec, Fees: "1000000" + FeeDenom})
+		}
+		// the other position settles validator b
+		if g.pct("ru-settle-by-claim", 60) {
+			x.Apply(Op{K: KClaim, D: other, V: b, Denom: dn})
+		} else {
+			x.Apply(Op{K: KDelegate, D: other, V: b, Denom: dn, Amt: g.freshAmount("amt")})
+		}
+		cur = x.Post()
+		if pos, ok := cur.FindDel(D, a, dn); ok {
+			bal := cur.Reported(pos)
+			if bal.Sign() > 0 {
+				if g.pct("ru-by-redelegate", 75) {
+					x.Apply(Op{K: KRedelegate, D: D, V: a, W: b, Denom: dn, Amt: g.amount("ramt", bal, false)})
+				} else {
+					x.Apply(Op{K: KDelegate, D: D, V: b, Denom: dn, Amt: g.freshAmount("amt")})
+				}
+			}
+		}
+		if g.pct("ru-claim", 60) {
+			x.Apply(Op{K: KClaim, D: D, V: b, Denom: dn})
 		}
 	case GWeightChangeOut:
 		// a validator carrying alliance stake (preferably of two assets) earns rewards, leaves the
